@@ -201,6 +201,39 @@ pub fn run(tier: Tier) -> Report {
         }
     }
 
+    // ---- 2c. nonterminal names and command texts: every name of length <= 3 over a small
+    // alphabet with blanks, dots, dashes, `@` and multi-byte letters, as a reference, as a plain
+    // definition and as a shell-specific definition; command texts with multi-byte characters,
+    // braces, comment lines and several lines
+    let mut names = 0u64;
+    {
+        let alpha: Vec<char> = "aZ9 ._-@\u{e9}\u{444}\t".chars().collect();
+        strings_upto(&alpha, 3, &mut |n| {
+            if n.trim() != n || n.is_empty() {
+                // the parser does not trim names, but a name of blanks only is not interesting
+            }
+            names += 1;
+            // as a reference (any text without `>`)
+            let g = g1("cmd", E::Seq(vec![E::lit("a"), E::r(n), E::Word(vec![E::lit("k="), E::r(n)])]));
+            let text = render_canonical(&grammar_tokens(&g, DotStyle::Escaped));
+            expect(&mut acc, "name", &g, &text, "nonterminal name in a reference");
+            if !n.contains('@') {
+                for shell in [None, Some("bash"), Some("pwsh")] {
+                    let g = G { stmts: vec![Stmt::Call { name: "cmd".into(), expr: E::r(n) }, Stmt::Def { name: n.to_string(), shell: shell.map(|s| s.to_string()), expr: E::cmd("c") }] };
+                    let text = render_canonical(&grammar_tokens(&g, DotStyle::Escaped));
+                    expect(&mut acc, "name", &g, &text, "nonterminal name in a definition");
+                }
+            }
+        });
+        for c in ["echo \u{e9} foo", "echo zo\u{eb} zed", "echo caf\u{e9}", "echo \u{65e5}\u{672c} ab", "\u{e9}", "a}b", "a}}b", "{ a; }", "# c\necho a", "echo a\n  echo b", "echo \"q\" 'r' $x `y` \\", "x\ty"] {
+            for g in [g1("cmd", E::Seq(vec![E::cmd(c), E::lit("t")])), g1("cmd", E::Word(vec![E::lit("k="), E::cmd(c)])), G { stmts: vec![Stmt::Call { name: "cmd".into(), expr: E::r("X") }, Stmt::Def { name: "X".into(), shell: Some("bash".into()), expr: E::cmd(c) }] }] {
+                names += 1;
+                let text = render_canonical(&grammar_tokens(&g, DotStyle::Escaped));
+                expect(&mut acc, "command-text", &g, &text, "command text");
+            }
+        }
+    }
+
     // ---- 2b. nested juxtaposition inside words: parses to the flattened tree
     crate::fam::nested_words(&mut |g| {
         let want = G {
@@ -309,12 +342,13 @@ pub fn run(tier: Tier) -> Report {
     rep.cov("distinct_nontrivial", J::i(total.distinct.len() as i64));
     rep.cov("trees", J::i(trees as i64));
     rep.cov("statement_skeletons", J::i(skeletons as i64));
+    rep.cov("nonterminal_names_and_command_texts", J::i(names as i64));
     rep.cov("literal_strings", J::i(nlits as i64));
     rep.cov("description_strings", J::i(ndescr as i64));
     rep.cov(
         "rule",
         J::s(format!(
-            "exhaustive: (1) every tree with <= {k} nodes over leaves {{a, b., a \"d\", <X>, {{{{{{ c }}}}}}}}, operators seq | || [] ... word descr, arity 2..3, printed with minimal parentheses in two dot styles; every single separator deviation from {SEPS:?} at every token gap for trees <= {k_layout1} nodes, every pair for trees <= {k_layout2} nodes; (2b) nested juxtapositions inside words under every operator, directly and through definitions, must parse to the flattened tree; (2) statement skeletons: call/plain/@shell definitions x =/::= x final ; x statement order; (3) every literal string of length <= {maxlen} over {} characters (every regular class representative + all 13 escapes) in 9 placements x 2 dot styles; (4) every description string up to length {} over {:?}. distinct = distinct input texts parsed; an evaluation is non-trivial when the text differs from every other text (hash of text).",
+            "exhaustive: (1) every tree with <= {k} nodes over leaves {{a, b., a \"d\", <X>, {{{{{{ c }}}}}}}}, operators seq | || [] ... word descr, arity 2..3, printed with minimal parentheses in two dot styles; every single separator deviation from {SEPS:?} at every token gap for trees <= {k_layout1} nodes, every pair for trees <= {k_layout2} nodes; (2b) nested juxtapositions inside words under every operator, directly and through definitions, must parse to the flattened tree; (2c) every nonterminal name of length <= 3 over {{a, Z, 9, blank, '.', '_', '-', '@', e-acute, a Cyrillic letter, TAB}} as a reference (top level and inside a word) and, without '@', as a plain / @bash / @pwsh definition; 12 command texts with multi-byte characters, braces, comment lines and several lines in three roles; (2) statement skeletons: call/plain/@shell definitions x =/::= x final ; x statement order; (3) every literal string of length <= {maxlen} over {} characters (every regular class representative + all 13 escapes) in 9 placements x 2 dot styles; (4) every description string up to length {} over {:?}. distinct = distinct input texts parsed; an evaluation is non-trivial when the text differs from every other text (hash of text).",
             alpha.len(),
             tier.pick(3, 4),
             dalpha
